@@ -10,7 +10,7 @@ import z3, time, math, numbers
 from fractions import Fraction
 from math import gcd
 
-SOLVER_TIMEOUT_MS = 60000
+SOLVER_TIMEOUT_MS = 20000
 
 
 class PathAbort(BaseException):
@@ -122,7 +122,7 @@ class Ctx(_Reporting):
         """precondition; only legal in setup (before the first path)"""
         self.solver.add(z)
 
-    def _check(self, *a):
+    def _check(self, *a, obligation=False):
         t = time.perf_counter()
         r = self.solver.check(*a)
         self._model_solver = self.solver
@@ -133,14 +133,42 @@ class Ctx(_Reporting):
             s2.add(self.solver.assertions()); s2.add(*a)
             r = s2.check()
             self.nretries = getattr(self, 'nretries', 0) + 1
+            if r == z3.unknown and obligation:
+                r = self._ask_cvc5(s2)          # third opinion for an obligation: another solver on the same SMT-LIB text
             if r == z3.unknown:
-                self.nunknown += 1
+                if obligation:
+                    self.nunknown += 1
+                else:
+                    # a branch whose feasibility stays undecided is simply explored (over-approximation: sound for "holds on every path")
+                    self.nunknown_branch = getattr(self, 'nunknown_branch', 0) + 1
                 self.unknown_reasons = (getattr(self, 'unknown_reasons', []) + ['%s / %s' % (reason, s2.reason_unknown())])[:5]
-            else:
+            elif r == z3.sat:
                 self._model_solver = s2
         self.solver_time += time.perf_counter() - t
         self.nchecks += 1
         return r
+
+    def _ask_cvc5(self, s2):
+        """unsat from the cvc5 binary discharges an obligation that z3 could not decide; anything else leaves it unknown"""
+        import subprocess, tempfile, os, shutil
+        exe = shutil.which('cvc5')
+        if not exe:
+            return z3.unknown
+        fd, path = tempfile.mkstemp(suffix='.smt2', prefix='pathsym_ob_')
+        try:
+            with os.fdopen(fd, 'w') as fh:
+                fh.write('(set-logic ALL)\n' + s2.to_smt2())
+            p = subprocess.run([exe, '--lang=smt2', '--tlimit=120000', path], capture_output=True, text=True, timeout=150)
+            first = (p.stdout.strip().split('\n') or [''])[0].strip()
+            if first == 'unsat' and '(error' not in p.stdout + p.stderr:
+                self.ncvc5 = getattr(self, 'ncvc5', 0) + 1
+                return z3.unsat
+        except Exception:
+            pass
+        finally:
+            try: os.unlink(path)
+            except OSError: pass
+        return z3.unknown
 
     # ---- path lifecycle
     def start_path(self):
@@ -342,7 +370,7 @@ class Ctx(_Reporting):
         extra_not: a z3 boolean describing inputs to be excluded (known findings)."""
         self.nobl += 1
         neg = z3.Not(zexpr)
-        r = self._check(neg)
+        r = self._check(neg, obligation=True)
         if self.dump is not None and len(self.dump) < 8 and r != z3.unknown:
             s2 = z3.Solver(); s2.add(self.solver.assertions()); s2.add(neg)
             self.dump.append((s2.to_smt2(), str(r)))
